@@ -21,7 +21,9 @@ CFG = dict(
     assumptions=["wall-clock time is abstracted to one boolean per input: 'watchRetryTimeout elapsed since the previous input'",
                  "retry sleeps (MinResyncInterval, ListRetryInterval, WatchPollInterval, MissingAPIRetryTime) are zeroed; they delay but do not change what is sent",
                  "the UpdateProcessor is a pure function of the KVPair",
-                 "a revision identifies the content of a key (the code swallows an update whose revision equals the cached one)",
+                 "a revision identifies the content of a key (the code swallows an update whose revision equals the cached one): "
+                 "hypothesis inputs_ok of c26_converges_content, shown necessary by c26_content_hypothesis_needed; without it convergence is of revisions",
+                 "the results channel delivers each cache's results in order (FIFO), in any interleaving, with sendUpdates flushes at any points",
                  "revisions are decimal strings; the empty revision string is not generated",
                  "shutdown (Stop) deletions are outside the observation"],
 )
@@ -31,10 +33,13 @@ def run(ctx):
 
 MANIFEST = dict(
     category="proof",
-    text="Theorems over an executable step-machine model of watcherCache/watcherSyncer for every sequence of list/watch "
-         "outcomes, every timeout pattern, every pure converter and every Go map order (convergence of the emitted update "
-         "stream to what the datastore last told, deletion of vanished keys, no update while WaitForDatastore, InSync only "
-         "after every cache completed a list), plus a correspondence run of the model and a specification oracle against "
-         "the real watcherSyncer driven deterministically through a scripted fake client.",
+    text="Theorems over an executable step-machine model of watcherCache/watcherSyncer, stated on the syncer's callback "
+         "stream for every sequence of list/watch outcomes per resource type, every timeout pattern, every pure converter, "
+         "every Go map order, every interleaving of the caches' result streams and every placement of sendUpdates flushes "
+         "(convergence of the delivered updates to what the datastore last told - revisions always, contents when a "
+         "revision determines content; deletion of keys that vanished during a resync; no OnUpdates while the last status "
+         "is WaitForDatastore; InSync only after every cache completed a list), plus a correspondence run of the model and a "
+         "specification oracle against the real watcherSyncer driven deterministically through a scripted fake client. "
+         "Partial: the boolean oracle accepting every model run (c26_model_meets_spec_partial proves its semantic clauses).",
     note="Trusted: Coq kernel; hand-written model tied to the code only by the correspondence run; Go driver and shim.",
 )
